@@ -61,6 +61,8 @@ def discharged : List (String × String × String × Nat × String × String) :=
   ("taskfile/ast:Var.UnmarshalYAML", "index", "‹*yaml.Node›.Content[0]", 1, "guard", "guard: len(node.Content) == 0 returns a decode error before"),
   ("taskfile/ast:Vars.UnmarshalYAML", "index", "‹*yaml.Node›.Content[‹int›+1]", 1, "yaml", "yaml"),
   ("taskfile/ast:Vars.UnmarshalYAML", "index", "‹*yaml.Node›.Content[‹int›]", 1, "yaml", "yaml"),
+  ("taskfile/ast:duplicateKeyError", "index", "‹*yaml.Node›.Content[‹int›]", 2, "loop", "loop: called from the hand-written mapping loops with their own index i (a key position, i < len(Content)); the inner index j runs from 0 below i"),
+  ("taskfile:Reader.include", "index", "‹*taskfile.readResult›.includes[‹int›]", 2, "loop", "loop: includes has Includes.Len() slots (made right after readNode succeeded), i counts the includes (both assignments sit in that loop)"),
   ("taskfile:NewSnippet", "slice", "‹[]string›[‹*taskfile.Snippet›.start-1 : ‹*taskfile.Snippet›.end]", 2, "guard", "guard: start and end are clamped to both line lists (snippet_bounds)"),
   ("taskfile:Reader.include", "assert", "‹graph.Edge[*ast.TaskfileVertex]›.Properties.Data.([]*ast.Include)", 1, "lib", "lib: the only writer of edge data stores []*ast.Include"),
   ("taskfile:Reader.include", "index", "‹[]*taskfile.includeEdge›[‹int›]", 1, "loop", "loop: edges has Includes.Len() slots, i counts the includes"),
